@@ -11,12 +11,13 @@
 using namespace romea::core;
 static int fails = 0;
 #define FAIL(...) do { if (fails < 20) { printf("FAILING-INPUT: "); printf(__VA_ARGS__); printf("\n"); } ++fails; } while (0)
+static int forced_k = 0;     // 0: random neighbourhood size; else the size to use (the property's quantifier: 3..30)
 static double u01(std::mt19937 & r) { return (double)(r() % 2000001) / 1000000.0 - 1.0; }
 
 template<int D> static void cloud(std::mt19937 & rng, int kind)
 {
   using V = Eigen::Matrix<double, D, 1>; using M = Eigen::Matrix<double, D, D>;
-  int n = 40 + rng() % 60, k = 5 + rng() % 10;
+  int n = 40 + rng() % 60, k = forced_k ? forced_k : 5 + (int)(rng() % 10);
   V nrm; for (int i = 0; i < D; ++i) nrm[i] = u01(rng); if (nrm.norm() < 0.2) nrm[0] += 1; nrm.normalize();
   double off = 3 + (rng() % 50) / 10.0;                     // the plane / line n.x = off does not pass through the origin
   PointSet<V> pts;
@@ -90,6 +91,8 @@ int main(int argc, char ** argv)
   std::mt19937 rng(A.count("seed") ? (unsigned)atol(A["seed"].c_str()) : 0);
   for (int k = 0; k < 30; ++k) { cloud<3>(rng, k % 3); cloud<2>(rng, k % 3); }
   far_dense<3>(12); far_dense<2>(6);
+  for (int k : {3, 4, 30}) { forced_k = k; for (int r = 0; r < 4; ++r) { cloud<3>(rng, 2); cloud<2>(rng, 2); } }
+  forced_k = 0;
   if (fails) { printf("%d failing checks\n", fails); return 1; }
   printf("no failing input found: normals are unit, sensor-facing, least-variance directions; planar clouds exact with zero curvature; curvature in range; rotation equivariant\n");
   return 0;
